@@ -22,7 +22,7 @@ var distinct = map[string]struct{}{}
 type tcase struct {
 	Values   []float64
 	RatePat  int
-	Grouping int // 0: one batch, 1: one batch per value
+	Grouping int // 0: one batch, 1: one batch per value, 2: one batch per value, every batch stamped earlier than the one before (and than the earlier flush of Prior): maps overtaking one another between parser and aggregator
 	Pcts     []float64
 	Interval time.Duration
 	Mask     int // 0 none, 1 all, 2.. single
@@ -92,10 +92,17 @@ func run2(c tcase) (t gostatsd.Timer, found bool, sib gostatsd.Timer, sibFound b
 		tags = gostatsd.Tags{"gsd_histogram:" + c.HistTag}
 	}
 	rp := ratePats[c.RatePat]
+	const baseTs = gostatsd.Nanotime(1_000_000_000_000_000)
+	priorTs := baseTs - 1000
+	stamp := func(i int) gostatsd.Nanotime { return baseTs + gostatsd.Nanotime(i) }
+	if c.Grouping == 2 {
+		priorTs = baseTs + 1000
+		stamp = func(i int) gostatsd.Nanotime { return baseTs - gostatsd.Nanotime(i) }
+	}
 	if c.Prior {
 		pm := gostatsd.NewMetricMap(false)
 		for _, v := range []float64{100, -50} {
-			pm.Receive(&gostatsd.Metric{Name: "t", Type: gostatsd.TIMER, Value: v, Rate: 0.5, Tags: append(gostatsd.Tags{}, tags...), Timestamp: gostatsd.NanoNow()})
+			pm.Receive(&gostatsd.Metric{Name: "t", Type: gostatsd.TIMER, Value: v, Rate: 0.5, Tags: append(gostatsd.Tags{}, tags...), Timestamp: priorTs})
 		}
 		ag.ReceiveMap(pm)
 		ag.Flush(c.Interval)
@@ -104,14 +111,14 @@ func run2(c tcase) (t gostatsd.Timer, found bool, sib gostatsd.Timer, sibFound b
 	}
 	mm := gostatsd.NewMetricMap(false)
 	neighbour := func() {
-		mm.Receive(&gostatsd.Metric{Name: "t", Type: gostatsd.TIMER, Value: 7, Rate: 0.25, Tags: gostatsd.Tags{"sib:1"}, Timestamp: gostatsd.NanoNow()})
+		mm.Receive(&gostatsd.Metric{Name: "t", Type: gostatsd.TIMER, Value: 7, Rate: 0.25, Tags: gostatsd.Tags{"sib:1"}, Timestamp: baseTs})
 	}
 	if c.Neighbour == 1 {
 		neighbour()
 	}
 	for i, v := range c.Values {
-		mm.Receive(&gostatsd.Metric{Name: "t", Type: gostatsd.TIMER, Value: v, Rate: rp[i%len(rp)], Tags: append(gostatsd.Tags{}, tags...), Timestamp: gostatsd.NanoNow()})
-		if c.Grouping == 1 {
+		mm.Receive(&gostatsd.Metric{Name: "t", Type: gostatsd.TIMER, Value: v, Rate: rp[i%len(rp)], Tags: append(gostatsd.Tags{}, tags...), Timestamp: stamp(i)})
+		if c.Grouping >= 1 {
 			ag.ReceiveMap(mm)
 			mm = gostatsd.NewMetricMap(false)
 		}
@@ -275,11 +282,14 @@ func main() {
 		i++
 		if vrt.Mine(i) {
 			for rpi := range ratePats {
-				for g := 0; g < 2; g++ {
+				for g := 0; g < 3; g++ {
 					for _, pl := range pctLists {
 						for ii, iv := range intervals {
 							for m := 0; m < 8; m++ {
 								if ii != 1 && m > 1 { // masks do not interact with the interval
+									continue
+								}
+								if g == 2 && (ii != 1 || m != 0) { // nor does the stamping of the batches
 									continue
 								}
 								check(tcase{Values: cur, RatePat: rpi, Grouping: g, Pcts: pl, Interval: iv, Mask: m})
@@ -306,6 +316,7 @@ func main() {
 				for rpi := range ratePats {
 					for _, pl := range [][]float64{nil, {90}, {-50, 50}} {
 						check(tcase{Values: cur, RatePat: rpi, Grouping: 0, Pcts: pl, Interval: time.Second, Mask: 0, Prior: true})
+						check(tcase{Values: cur, RatePat: rpi, Grouping: 2, Pcts: pl, Interval: time.Second, Mask: 0, Prior: true})
 					}
 				}
 				for _, lim := range []uint32{1, math.MaxUint32} {
@@ -315,7 +326,7 @@ func main() {
 			// two series of one name sharing the batches (either arrival order)
 			for nb := 1; nb <= 2; nb++ {
 				for rpi := range ratePats {
-					for g := 0; g < 2; g++ {
+					for g := 0; g < 3; g++ {
 						for _, pl := range [][]float64{nil, {90}, {-50, 50}} {
 							check(tcase{Values: cur, RatePat: rpi, Grouping: g, Pcts: pl, Interval: intervals[ii2(nb)], Mask: 0, Neighbour: nb})
 						}
